@@ -112,7 +112,7 @@ Print Assumptions C03_stream_single.
 
 (* one read of one phase: if the model reproduces the response from the dump, the response is the function of the
    history's snapshot that the property prescribes (Get incl. revision 0 when nothing above cur is stored, List with
-   and without limit, Count, ListByStream) *)
+   and without limit, Count, ListByStream, and the etcd Range response shaped by backendShim.List: kvs, More, Count) *)
 Theorem C03_read_char : forall ck compat srt parts ph hv F, (srt = false -> parts = single_part) -> hist_pos hv -> functional hv ->
   compact_layout_ok (ph_dump ph) hv F = true -> floor_rec_ok ck (ph_dump ph) F = true -> F < two64 -> ph_cur ph < two64 ->
   forall q, read_alpha q -> read_parts_ok parts q -> in_scope compat hv (ph_cur ph) F q = true -> read_check ck compat parts ph q = true ->
@@ -251,7 +251,8 @@ Definition x_reads (d : raw_store) (cur : N) : list c03_read :=
   [QGet w_a 101 (get_model d cur w_a 101); QGet w_b 103 (get_model d cur w_b 103); QGet w_a 0 (get_model d cur w_a 0);
    QList lo hi 103 1 (list_model d fv single_part cur lo hi 103 1); QList lo hi 0 0 (list_model d fv single_part cur lo hi 0 0);
    QCount lo hi (count_model d fv single_part true cur lo hi);
-   QStream lo hi 103 (x_stream (stream_model d fv single_part cur (encode lo 0) (encode hi 0) 103))].
+   QStream lo hi 103 (x_stream (stream_model d fv single_part cur (encode lo 0) (encode hi 0) 103));
+   QEtcd lo hi 103 2 (etcd_shape (list_model d fv single_part cur lo hi 103 2)); QEtcd lo hi 103 1 (etcd_shape (list_model d fv single_part cur lo hi 103 1))].
 Definition x_case : c03_case :=
   mk_c03 x_ck true []
     [mk_phase [WCreate w_a [120] 101 true; WCreate w_b [121] 102 true; WUpdate w_a [122] 101 103 true; WDelete w_b 102 104 true;
